@@ -3,4 +3,4 @@
 From Coq Require Import ZArith List Extraction ExtrOcamlBasic.
 From Sky Require Import Num M_Coords.
 Extraction "model.ml" angsep sep_hav signalpdf_psi tdm_psi rot_sv rot_matrix rot_cosa
-  azi2ra ra2azi hor2equ psi2decra p2d_xyz uvec dot Z.of_nat Z.to_nat.
+  azi2ra ra2azi hor2equ psi2decra p2d_xyz uvec dot rses_ap ap_separation ap_position_angle ap_offset_by Z.of_nat Z.to_nat.
